@@ -643,11 +643,9 @@ func (r *Request) executeHandler() {
 		}
 		hs.Get(r)
 	case "call":
-		if r.method == "new" {
-			if hs.New != nil {
-				hs.New(r)
-				return
-			}
+		if r.method == "new" && hs.New != nil {
+			hs.New(r)
+			break
 		}
 		var h CallHandler
 		if hs.Call != nil {
